@@ -56,3 +56,34 @@ package recovery
 //@   ensures[C15.fallback-nonempty] fileMissing(primaryPath) || filePermDenied(primaryPath) || dr.retryConfig.MaxAttempts < 1 ==> len(result0.Commands) >= 1
 //@ loop 1
 //@   invariant $i <= 0
+
+// ---------------------------------------------------------------------------
+// Last-resort searches (C01, C10): constant scores, one result per matching command, in list order.
+//@ pure func recoveredOK(db *database.Database, r []database.SearchResult) bool = database.resultsOK(db, r) && database.sortedDesc(r) && database.ascendingCmds(db, r)
+
+//@ func (*SearchRecovery).basicKeywordSearch
+//@   requires db != nil
+//@   modifies nothing
+//@   ensures[C01.recovery-basic] result1 == nil && fresh(result0) && recoveredOK(db, result0)
+//@ loop 1
+//@   invariant recoveredOK(db, results) && (forall k int :: 0 <= k && k < len(results) ==> database.cmdIdx(db, results[k].Command) < $i && results[k].Score == 1.0)
+//@ func (*SearchRecovery).singleWordSearch
+//@   requires db != nil
+//@   modifies nothing
+//@   ensures[C01.recovery-single] result1 == nil ==> fresh(result0) && recoveredOK(db, result0)
+//@ loop 1
+//@   invariant recoveredOK(db, results) && (forall k int :: 0 <= k && k < len(results) ==> database.cmdIdx(db, results[k].Command) < $i && results[k].Score == 0.8)
+//@ func (*SearchRecovery).partialMatchSearch
+//@   requires db != nil
+//@   modifies nothing
+//@   ensures[C01.recovery-partial] result1 == nil && fresh(result0) && recoveredOK(db, result0)
+//@ loop 1
+//@   invariant recoveredOK(db, results) && (forall k int :: 0 <= k && k < len(results) ==> database.cmdIdx(db, results[k].Command) < $i && results[k].Score == 0.6)
+//@ loop 2
+//@   invariant recoveredOK(db, results) && 0 <= i && i < len(db.Commands) && (forall k int :: 0 <= k && k < len(results) ==> database.cmdIdx(db, results[k].Command) < i && results[k].Score == 0.6)
+
+//@ func (*SearchRecovery).RecoverFromSearchFailure
+//@   requires db != nil
+//@   modifies nothing
+//@   ensures[C01.recovery-ok] result1 == nil ==> len(result0) > 0 && database.resultsOK(db, result0) && database.sortedDesc(result0)
+//@   ensures[C01.recovery-shape] result1 != nil ==> len(result0) == 0
